@@ -24,15 +24,14 @@ static inline mem_header_t *get_header(uint8_t *src) {
 
 /* Create new ref counted memory area */
 _public_ void *m_mem_new(size_t size, m_ref_dtor dtor) {
-    /* Always use maximum alignment for the platform */
-    const size_t total_size = sizeof(mem_header_t) + size;
-    size_t total_size_aligned = ALIGN_UP(total_size);
-    uint8_t align_shift = total_size_aligned - total_size;
-    if (align_shift == 0) {
-        /* Add a new aligned block; it is needed to later store alignment information */
-        align_shift = alignof(max_align_t);
-    }
-    mem_header_t *header = memhook._calloc(1, total_size + align_shift);
+    /*
+     * Always use maximum alignment for the platform:
+     * user data starts at the first max-aligned offset that leaves
+     * at least one byte after the header; that byte stores the alignment shift.
+     */
+    const size_t data_off = ALIGN_UP(sizeof(mem_header_t) + 1);
+    const uint8_t align_shift = data_off - sizeof(mem_header_t);
+    mem_header_t *header = memhook._calloc(1, data_off + size);
     if (header) {
         header->refs = 1;
         header->dtor = dtor;
